@@ -817,5 +817,170 @@ def item_c01_keepdims(repo, out):
     out.append('Definition keepdims_glue : list (string * bool) := [%s].' % '; '.join(rows))
 
 
+# ------------------------------------------------------------------------------------------------ v3 resynthesis
+
+# H5DataV3.__init__ from `self._timestamps = data_group['timestamps'][:]` to `self._time_keep = ...`, statement by
+# statement, in the translator's normal form (log calls reduced to their arguments).  Statements marked with a slot
+# name are TRANSLATED (expression / comparison operator -> Generated.v, used by Model/DataSetResyn.v); every other
+# statement must be exactly the text below (anything else is refused).
+_CMP = {ast.Lt: 1, ast.LtE: 2, ast.Gt: 3, ast.GtE: 4}
+V3_RESYN_BLOCK = [
+    (None, "self._timestamps = data_group['timestamps'][:]"),
+    (None, "self._keepdims = keepdims"),
+    (None, "old_scale = self._get_cbf_attr('scale_factor_timestamp', cbf_group)"),
+    (None, "old_origin = self._get_cbf_attr('sync_time', cbf_group)"),
+    (None, "time_scale = old_scale if time_scale is None else time_scale"),
+    (None, "time_origin = old_origin if time_origin is None else time_origin"),
+    ('wrap', "adc_wrap_period = 2 ** ADC_COUNTER_BITS / time_scale"),
+    ('regular', "regular_sensors = ()"),
+    ('duration', "data_duration = 0"),
+    ('start0', "sensor_start_time = 0"),
+    ('pick', """for sensor_name, sensor_data in cache.items():
+    if sensor_name.endswith(regular_sensors) and sensor_data:
+        sensor_times = sensor_data.get().timestamp
+        proposed_sensor_start_time = sensor_times[0]
+        sensor_duration = sensor_times[-1] - proposed_sensor_start_time
+        if sensor_duration > data_duration:
+            sensor_start_time = proposed_sensor_start_time
+            break"""),
+    ('loop', """while sensor_start_time - time_origin > adc_wrap_period:
+    time_origin += adc_wrap_period"""),
+    (None, """if time_origin != old_origin:
+    logger.warning("m")
+    logger.warning("m %s %s" % (katpoint.Timestamp(old_origin), katpoint.Timestamp(time_origin)))
+    logger.warning("m")"""),
+    ('samples', "samples = 0"),
+    ('resyn', "self._timestamps = 0"),
+    (None, "time_deltas = np.diff(self._timestamps)"),
+    ('wraps', "time_wraps = np.nonzero(time_deltas < 0)[0]"),
+    (None, """if len(time_wraps):
+    time_deltas[time_wraps] += adc_wrap_period
+    self._timestamps = np.cumsum(np.r_[self._timestamps[0], time_deltas])
+    for wrap in time_wraps:
+        logger.warning('m %s' % (katpoint.Timestamp(self._timestamps[wrap])))
+    logger.warning("m")"""),
+    (None, "backward_jumps = np.nonzero(time_deltas < 0.0)[0]"),
+    (None, """for jump in backward_jumps:
+    logger.warning('m %s %g' % (katpoint.Timestamp(self._timestamps[jump]), time_deltas[jump]))"""),
+    (None, "num_dumps = len(self._timestamps)"),
+    (None, """if num_dumps != self._vis.shape[0]:
+    raise BrokenFile(f'm {num_dumps} {self._vis.shape[0]}')"""),
+    (None, "num_dumps = (num_dumps - 1) if num_dumps > 1 and (self._timestamps[-1] == self._timestamps[-2]) else num_dumps"),
+    (None, "self._timestamps = self._timestamps[:num_dumps]"),
+    (None, """if num_dumps > 1:
+    expected_dumps = (self._timestamps[-2] - self._timestamps[0]) / self.dump_period + 2
+    if abs(expected_dumps - num_dumps) >= 0.01:
+        logger.warning("m %s %.3f %d", filename, expected_dumps, num_dumps)"""),
+    (None, "self._timestamps += offset_to_middle_of_dump + self.time_offset"),
+]
+
+
+def _cmp_slot(node, canon, what):
+    """The single comparison operator of `node` (a Compare with one operator): its code; the operator is then replaced
+    by `canon` so that the surrounding statement can be compared with the template text."""
+    if not (isinstance(node, ast.Compare) and len(node.ops) == 1 and type(node.ops[0]) in _CMP):
+        raise TranslateError('%s: not a single ordering comparison: %s' % (what, ast.unparse(node)[:80]))
+    code = _CMP[type(node.ops[0])]
+    node.ops[0] = canon()
+    return code
+
+
+def item_c01_v3_resynth(repo, out):
+    """H5DataV3.__init__: resynthesis of the timestamps from the ADC sample counter (scale / origin overrides with their
+    None defaults, wrap period of the ADC_COUNTER_BITS-bit counter, second opinion on the start time from the regular
+    sensors, sync time moved forward in steps of the wrap period, unwrapping of decreases larger than half a wrap
+    period), the dump-count check, the duplicate final dump and the shift to mid-dump - in this ORDER."""
+    import copy
+    from vh.translate import parse_template
+    from vh.items.c17 import tx, OPS, _promote
+    rel = 'katdal/h5datav3.py'
+    tree = _parse(repo, rel)
+    cls = _class(tree, 'H5DataV3', rel)
+    init = copy.deepcopy(_func(cls, '__init__', rel))
+    what = 'H5DataV3.__init__'
+    texts = [ast.unparse(n) for n in init.body]
+    first = [i for i, t in enumerate(texts) if t == "self._timestamps = data_group['timestamps'][:]"]
+    last = [i for i, t in enumerate(texts) if t.startswith('self._time_keep =')]
+    if len(first) != 1 or len(last) != 1 or last[0] - first[0] != len(V3_RESYN_BLOCK):
+        raise TranslateError('%s: the block between loading the timestamps and self._time_keep has %s statements, %d expected'
+                             % (what, (last[0] - first[0]) if len(first) == 1 and len(last) == 1 else '?', len(V3_RESYN_BLOCK)))
+    # nothing before the block may touch the names it reads (the arguments keep their values until then) and nothing
+    # after it may rebind self._timestamps (the sensor-grid item checks the latter as well)
+    for n in init.body[:first[0]]:
+        for m in ast.walk(n):
+            if isinstance(m, (ast.Assign, ast.AugAssign)) and set(_targets(m)) & {'time_scale', 'time_origin', 'self.time_offset',
+                                                                                'self._timestamps'}:
+                raise TranslateError('%s: %s is rebound before the timestamps are resynthesised' % (what, _targets(m)))
+    names = [a.arg for a in init.args.args]
+    dflt = dict(zip(names[len(names) - len(init.args.defaults):], init.args.defaults))
+    for k, v in (('time_scale', 'None'), ('time_origin', 'None'), ('time_offset', '0.0')):
+        if k not in dflt or _norm(dflt[k]) != v:
+            raise TranslateError('%s: %s does not default to %s' % (what, k, v))
+    ds_init = _func(_class(_parse(repo, 'katdal/dataset.py'), 'DataSet', 'katdal/dataset.py'), '__init__', 'katdal/dataset.py')
+    if 'self.time_offset=time_offset' not in [_norm(n) for n in ds_init.body]:
+        raise TranslateError('DataSet.__init__: self.time_offset is not the time_offset argument')
+    bits = _module_assign(tree, 'ADC_COUNTER_BITS', rel)
+    if not (isinstance(bits, ast.Constant) and isinstance(bits.value, int) and 0 < bits.value < 200):
+        raise TranslateError('ADC_COUNTER_BITS is not a small positive integer literal')
+    defs, cmps = {}, {}
+    for (slot, tmpl), node in zip(V3_RESYN_BLOCK, init.body[first[0]:last[0]]):
+        w = '%s: %s' % (what, (slot or tmpl.split('\n')[0])[:50])
+        if slot == 'wrap':
+            if not (isinstance(node, ast.Assign) and _targets(node) == ['adc_wrap_period'] and isinstance(node.value, ast.BinOp)
+                    and isinstance(node.value.op, ast.Div) and _norm(node.value.left) == '2**ADC_COUNTER_BITS'):
+                raise TranslateError(w + ': not 2 ** ADC_COUNTER_BITS / <expr>')
+            t = tx(node.value.right, {'time_scale': ('Q', 'time_scale')}, w)
+            defs['wrap'] = '(o_div (o_ofZ %s) %s)' % (coq_Z(2 ** bits.value), _promote(t))
+            continue
+        if slot == 'regular':
+            if not (isinstance(node, ast.Assign) and _targets(node) == ['regular_sensors'] and isinstance(node.value, ast.Tuple)
+                    and node.value.elts and all(isinstance(e, ast.Constant) and isinstance(e.value, str) for e in node.value.elts)):
+                raise TranslateError(w + ': not a tuple of names')
+            defs['regular'] = [e.value for e in node.value.elts]
+            continue
+        if slot in ('duration', 'start0', 'samples', 'resyn'):
+            tgt = {'duration': 'data_duration', 'start0': 'sensor_start_time', 'samples': 'samples', 'resyn': 'self._timestamps'}[slot]
+            if not (isinstance(node, ast.Assign) and _targets(node) == [tgt]):
+                raise TranslateError(w + ': not an assignment to ' + tgt)
+            env = {'duration': {'self._timestamps[-1]': ('Q', 't_last'), 'self._timestamps[0]': ('Q', 't_first'),
+                                'self.dump_period': ('Q', 'dump_period')},
+                   'start0': {},
+                   'samples': {'self._timestamps': ('Q', 't'), 'old_scale': ('Q', 'old_scale'), 'old_origin': ('Q', 'old_origin')},
+                   'resyn': {'samples': ('Q', 'samples'), 'time_scale': ('Q', 'time_scale'), 'time_origin': ('Q', 'time_origin')}}[slot]
+            defs[slot] = _promote(tx(node.value, env, w))
+            continue
+        if slot == 'pick':
+            inner = [m for m in ast.walk(node) if isinstance(m, ast.Compare)]
+            if len(inner) != 1:
+                raise TranslateError(w + ': expected exactly one comparison')
+            cmps['pick'] = _cmp_slot(inner[0], ast.Gt, w)
+        if slot == 'loop':
+            if not isinstance(node, ast.While):
+                raise TranslateError(w + ': not a while loop')
+            cmps['loop'] = _cmp_slot(node.test, ast.Gt, w)
+        if slot == 'wraps':
+            cm = [m for m in ast.walk(node) if isinstance(m, ast.Compare)]
+            if len(cm) != 1 or _norm(cm[0].left) != 'time_deltas':
+                raise TranslateError(w + ': expected time_deltas <cmp> threshold')
+            defs['thr'] = _promote(tx(cm[0].comparators[0], {'adc_wrap_period': ('Q', 'adc_wrap_period')}, w))
+            cmps['wraps'] = _cmp_slot(cm[0], ast.Lt, w)
+            cm[0].comparators[0] = ast.Constant(0)
+        want = ast.unparse(parse_template(tmpl).body[0])
+        got = ast.unparse(ast.fix_missing_locations(node))
+        if got != want:
+            raise TranslateError('%s: statement is\n%s\nexpected\n%s' % (w, got[:300], want[:300]))
+    out.append('Definition gen_v3_adc_bits : Z := %s.' % coq_Z(bits.value))
+    out.append('Definition gen_v3_adc_wrap %s (time_scale : A) : A := %s.' % (OPS, defs['wrap']))
+    out.append('Definition gen_v3_regular_sensors : list string := [%s].' % '; '.join(coq_string(x) for x in defs['regular']))
+    out.append('Definition gen_v3_data_duration %s (t_last dump_period t_first : A) : A := %s.' % (OPS, defs['duration']))
+    out.append('Definition gen_v3_sensor_start_default %s : A := %s.' % (OPS, defs['start0']))
+    out.append('Definition gen_v3_samples %s (t old_scale old_origin : A) : A := %s.' % (OPS, defs['samples']))
+    out.append('Definition gen_v3_resyn %s (samples time_scale time_origin : A) : A := %s.' % (OPS, defs['resyn']))
+    out.append('Definition gen_v3_wrap_threshold %s (adc_wrap_period : A) : A := %s.' % (OPS, defs['thr']))
+    out.append('(* comparison operators (1 <, 2 <=, 3 >, 4 >=): sensor_duration ? data_duration; sensor_start_time - time_origin ?\n'
+               '   adc_wrap_period (while); time_deltas ? threshold *)')
+    out.append('Definition gen_v3_resyn_cmps : Z * Z * Z := (%s, %s, %s).' % (coq_Z(cmps['pick']), coq_Z(cmps['loop']), coq_Z(cmps['wraps'])))
+
+
 ITEMS = [item_c01_attrs, item_c01_tconv, item_c01_conj, item_c01_weight_names, item_c01_snapshot,
-         item_c01_sensor_grid, item_c01_construction_grid, item_c01_freq_axes, item_c01_keepdims]
+         item_c01_sensor_grid, item_c01_construction_grid, item_c01_freq_axes, item_c01_keepdims, item_c01_v3_resynth]
